@@ -304,6 +304,23 @@ func c09Case(c *fw.Case, reps int, perturb bool) {
 			}
 		}
 	}
+	// ... and of nothing that was asked before or after: the same request again once the next case has run
+	c.Echo("Build/"+b.proto, func() string {
+		list := make([]datacoding.ProtocolDataCoding, len(b.cands))
+		for i, n := range b.cands {
+			list[i] = mkCoding(b.proto, n)
+		}
+		enc := protocol.NewBatchDataCodingEncoder().Protocol(protocol.Protocol(b.proto)).Content(b.content, b.ref).DataCodings(list)
+		if b.origin != -1000 {
+			enc = enc.OriginDataCoding(mkCoding(b.proto, b.origin))
+		}
+		parts, f, err := enc.Build(context.Background())
+		coding := -1
+		if f != nil {
+			coding = f.ToInt()
+		}
+		return fmt.Sprintf("coding=%d err=%v parts=%s", coding, err != nil, digestParts(parts, nil))
+	})
 	// determinism: shuffled order, duplicates, GOMAXPROCS, injected delays
 	old := runtime.GOMAXPROCS(0)
 	for k := 0; k < reps; k++ {
